@@ -396,6 +396,13 @@ func mkBody(c *lib.Ctx, sc scenario) func() vsync.Body {
 		if err != nil {
 			panic(&harnessErr{"assembly: " + err.Error()})
 		}
+		// Start from a state in which something has been served already: the
+		// query-log buffer, the statistics unit and the caches are not empty.
+		for ri := range requests {
+			if ri < 2 {
+				_, _, _ = requests[ri].run(a)
+			}
+		}
 		var resp, req *dns.Msg
 		var rerr error
 		opMsgs := make([]string, len(sc.ops))
